@@ -15,6 +15,33 @@ CLAIMS = {
             'defaults is a Jinja2 program and is not decided.', '5 C05'),
 }
 
+COMPILE_NOTE = ('Trusted: the component protocol contracts (pyvc/models/components.py) for user callbacks, network '
+                'readers and PyPackageSearcher; distinct component objects; debug logging off; keys of the status maps are '
+                'str.  The bookkeeping clauses are proved for histories in which every fetched file holds exactly one '
+                'module named like the request (known finding D21/D13 otherwise); exception freedom, status values, '
+                'write-once, payload identity and the failure gate are proved for all histories.  Termination of the '
+                'discovery loop is not decided.')
+CLAIMS.update({
+    'C07': ('proof',
+            'MibCompiler.compile is symbolically executed once against adversarial protocol contracts of all seven '
+            'component kinds, with symbolic maps and component lists of any size and an inductive invariant for each of '
+            'its twelve loops; no_escape, status_values, write_once, status_iff_written, payload identity are '
+            'postconditions discharged by z3 for every import graph and every assignment of outcomes.',
+            COMPILE_NOTE, '5 C07-C10,C19'),
+    'C09': ('proof',
+            'The failure gate and the store loop of compile carry assertions: at the gate return nothing was handed to '
+            'the writer and every built module is unprocessed; the store loop is entered only without outstanding '
+            'failures or with ignoreErrors, and then every built module is handed over exactly once.',
+            COMPILE_NOTE, '5 C07-C10,C19'),
+})
+CLAIMS['C13'] = ('proof',
+    'FileWriter.putData, PyFileWriter.putData and CallbackWriter.putData are executed symbolically against an OS model '
+    'in which every system call may fail (and os.write may fall short) adversarially; atomicity, temp-file cleanup, '
+    'error type, success-means-stored, frame and dry-run clauses are postconditions over the ghost file system, '
+    'discharged for every fault placement with a budget of one fault.',
+    'Trusted: the OS model (POSIX rename atomicity, mkstemp uniqueness, OSError without effect); compat.encode/decode '
+    'inlined; concurrent writers of the same module are not decided (no concurrency in the engine); the forwarding of '
+    'dryRun/writeMibs by compile() is proved under C07/C09.', '5 C13')
 NOT_YET = {
 }
 
